@@ -32,17 +32,17 @@ package dnsutil
 //@   loop 1 invariant forall j int :: {msg.Answer[j]} 0 <= j && j < rangeidx ==> minTTL <= ttlOf(msg.Answer[j]) && (dyntype(msg.Answer[j], *dns.RRSIG) ==> minTTL <= sigTTL(as(msg.Answer[j], *dns.RRSIG), now))
 //@   loop 2 invariant minTTL <= 86400000000000
 //@   loop 2 invariant forall j int :: {msg.Answer[j]} 0 <= j && j < len(msg.Answer) ==> minTTL <= ttlOf(msg.Answer[j]) && (dyntype(msg.Answer[j], *dns.RRSIG) ==> minTTL <= sigTTL(as(msg.Answer[j], *dns.RRSIG), now))
-//@   loop 2 invariant forall j int :: {msg.Ns[j]} 0 <= j && j < rangeidx ==> minTTL <= ttlOf(msg.Ns[j]) && (dyntype(msg.Ns[j], *dns.RRSIG) ==> minTTL <= sigTTL(as(msg.Ns[j], *dns.RRSIG), now)) && (isNegative && dyntype(msg.Ns[j], *dns.SOA) ==> minTTL <= time.Duration(as(msg.Ns[j], *dns.SOA).Minttl) * 1000000000)
+//@   loop 2 invariant forall j int :: {msg.Ns[j]} 0 <= j && j < rangeidx ==> minTTL <= ttlOf(msg.Ns[j]) && (dyntype(msg.Ns[j], *dns.RRSIG) ==> minTTL <= sigTTL(as(msg.Ns[j], *dns.RRSIG), now)) && (dyntype(msg.Ns[j], *dns.SOA) ==> minTTL <= time.Duration(as(msg.Ns[j], *dns.SOA).Minttl) * 1000000000)
 //@   loop 3 invariant minTTL <= 86400000000000
 //@   loop 3 invariant forall j int :: {msg.Answer[j]} 0 <= j && j < len(msg.Answer) ==> minTTL <= ttlOf(msg.Answer[j]) && (dyntype(msg.Answer[j], *dns.RRSIG) ==> minTTL <= sigTTL(as(msg.Answer[j], *dns.RRSIG), now))
-//@   loop 3 invariant forall j int :: {msg.Ns[j]} 0 <= j && j < len(msg.Ns) ==> minTTL <= ttlOf(msg.Ns[j]) && (dyntype(msg.Ns[j], *dns.RRSIG) ==> minTTL <= sigTTL(as(msg.Ns[j], *dns.RRSIG), now)) && (isNegative && dyntype(msg.Ns[j], *dns.SOA) ==> minTTL <= time.Duration(as(msg.Ns[j], *dns.SOA).Minttl) * 1000000000)
+//@   loop 3 invariant forall j int :: {msg.Ns[j]} 0 <= j && j < len(msg.Ns) ==> minTTL <= ttlOf(msg.Ns[j]) && (dyntype(msg.Ns[j], *dns.RRSIG) ==> minTTL <= sigTTL(as(msg.Ns[j], *dns.RRSIG), now)) && (dyntype(msg.Ns[j], *dns.SOA) ==> minTTL <= time.Duration(as(msg.Ns[j], *dns.SOA).Minttl) * 1000000000)
 //@   loop 3 invariant forall j int :: {msg.Extra[j]} 0 <= j && j < rangeidx && hdrOf(msg.Extra[j]).Rrtype != dns.TypeOPT ==> minTTL <= ttlOf(msg.Extra[j]) && (dyntype(msg.Extra[j], *dns.RRSIG) ==> minTTL <= sigTTL(as(msg.Extra[j], *dns.RRSIG), now))
 //@   # the final value is max(5 s, min(24 h, minTTL)) with minTTL below every counted record / signature / SOA minimum
 //@   assert at return#4: forall j int :: {msg.Answer[j]} 0 <= j && j < len(msg.Answer) ==> minTTL <= ttlOf(msg.Answer[j]) && (dyntype(msg.Answer[j], *dns.RRSIG) ==> minTTL <= sigTTL(as(msg.Answer[j], *dns.RRSIG), now))
-//@   assert at return#4: forall j int :: {msg.Ns[j]} 0 <= j && j < len(msg.Ns) ==> minTTL <= ttlOf(msg.Ns[j]) && (isNegative && dyntype(msg.Ns[j], *dns.SOA) ==> minTTL <= time.Duration(as(msg.Ns[j], *dns.SOA).Minttl) * 1000000000)
+//@   assert at return#4: forall j int :: {msg.Ns[j]} 0 <= j && j < len(msg.Ns) ==> minTTL <= ttlOf(msg.Ns[j]) && (dyntype(msg.Ns[j], *dns.SOA) ==> minTTL <= time.Duration(as(msg.Ns[j], *dns.SOA).Minttl) * 1000000000)
 //@   assert at return#4: result == 5000000000 && minTTL < 5000000000
 //@   assert at return#6: forall j int :: {msg.Answer[j]} 0 <= j && j < len(msg.Answer) ==> result <= ttlOf(msg.Answer[j]) && (dyntype(msg.Answer[j], *dns.RRSIG) ==> result <= sigTTL(as(msg.Answer[j], *dns.RRSIG), now))
-//@   assert at return#6: forall j int :: {msg.Ns[j]} 0 <= j && j < len(msg.Ns) ==> result <= ttlOf(msg.Ns[j]) && (dyntype(msg.Ns[j], *dns.RRSIG) ==> result <= sigTTL(as(msg.Ns[j], *dns.RRSIG), now)) && (isNegative && dyntype(msg.Ns[j], *dns.SOA) ==> result <= time.Duration(as(msg.Ns[j], *dns.SOA).Minttl) * 1000000000)
+//@   assert at return#6: forall j int :: {msg.Ns[j]} 0 <= j && j < len(msg.Ns) ==> result <= ttlOf(msg.Ns[j]) && (dyntype(msg.Ns[j], *dns.RRSIG) ==> result <= sigTTL(as(msg.Ns[j], *dns.RRSIG), now)) && (dyntype(msg.Ns[j], *dns.SOA) ==> result <= time.Duration(as(msg.Ns[j], *dns.SOA).Minttl) * 1000000000)
 //@   assert at return#6: forall j int :: {msg.Extra[j]} 0 <= j && j < len(msg.Extra) && hdrOf(msg.Extra[j]).Rrtype != dns.TypeOPT ==> result <= ttlOf(msg.Extra[j])
 //@
 //@ # ---- C06: DNSSEC / OPT stripping. filterOut(rrs, drop) keeps exactly the records drop rejects, never writes the
